@@ -405,7 +405,7 @@ func cmdCheck(args []string) int {
 	}
 	ev := map[string]interface{}{
 		"property_id": id, "tier": tier, "seed": seed, "level": "proof", "coverage": cov,
-		"assumptions": append([]string{}, propertyAssumptions[id]...), "wall_s": round3(time.Since(t0).Seconds()), "violations": len(reported),
+		"assumptions": append(manifestNote(id), propertyAssumptions[id]...), "wall_s": round3(time.Since(t0).Seconds()), "violations": len(reported),
 	}
 	writeEvidence(id, ev)
 	fmt.Printf("property %s: %d obligations (%d functions, %d lemmas), %d discharged, %d not discharged, %d known findings; wall %.1fs\n",
@@ -549,4 +549,29 @@ func runRegressionReplays(id string) []map[string]interface{} {
 		out = append(out, res)
 	}
 	return out
+}
+
+
+// manifestNote returns the claim's level note (what is assumed, what is not covered) from MANIFEST.json, so that the evidence
+// of a run carries it next to the measured trusted base.
+func manifestNote(id string) []string {
+	raw, err := os.ReadFile(filepath.Join(verifDir(), "MANIFEST.json"))
+	if err != nil {
+		return []string{}
+	}
+	var m struct {
+		Checks []struct {
+			PropertyID string `json:"property_id"`
+			LevelNote  string `json:"level_note"`
+		} `json:"checks"`
+	}
+	if json.Unmarshal(raw, &m) != nil {
+		return []string{}
+	}
+	for _, c := range m.Checks {
+		if c.PropertyID == id && c.LevelNote != "" {
+			return []string{c.LevelNote}
+		}
+	}
+	return []string{}
 }
